@@ -127,10 +127,12 @@ type Conn struct {
 	closed    chan struct{}
 	rdl, wdl  deadline
 
-	nRead, nWrite atomic.Int64
-	bytesRead     atomic.Int64
-	bytesWritten  atomic.Int64
-	closeCalls    atomic.Int64
+	nRead, nWrite    atomic.Int64
+	bytesRead        atomic.Int64
+	eofWithData      atomic.Bool
+	eofWithDataFired atomic.Int64
+	bytesWritten     atomic.Int64
+	closeCalls       atomic.Int64
 
 	fmu      sync.Mutex
 	faults   []Fault
@@ -319,6 +321,13 @@ func RealAfter(d time.Duration) <-chan struct{} {
 	return <-realResp
 }
 
+// SetEOFWithData makes Read return the last buffered bytes together with io.EOF in one call once the
+// peer has closed its write side (legal for an io.Reader; real sockets never do it, wrappers may).
+func (c *Conn) SetEOFWithData(on bool) { c.eofWithData.Store(on) }
+
+// EOFWithDataFired counts the reads that returned (n > 0, io.EOF).
+func (c *Conn) EOFWithDataFired() int64 { return c.eofWithDataFired.Load() }
+
 func (c *Conn) Read(p []byte) (int, error) {
 	k := int(c.nRead.Add(1) - 1)
 	kind, sticky, maxRead := c.fault(OpRead, k)
@@ -358,11 +367,17 @@ func (c *Conn) Read(p []byte) (int, error) {
 			if len(h.buf) == 0 {
 				h.buf = nil
 			}
+			// io.Reader allows the final bytes and the error in ONE call (iotest.DataErrReader): opt-in
+			last := c.eofWithData.Load() && len(h.buf) == 0 && h.wclosed
 			h.signalLocked()
 			h.mu.Unlock()
 			c.bytesRead.Add(int64(n))
 			if c.ReadHook != nil {
 				c.ReadHook(p[:n])
+			}
+			if last {
+				c.eofWithDataFired.Add(1)
+				return n, io.EOF
 			}
 			return n, nil
 		}
